@@ -18,6 +18,14 @@ ASSUMPTIONS = [
     'translator tie (C07_source_target_name): PyMini (Model/PyMini.v) is the semantics of the translated get_target_name; '
     'a target is encoded as a tagged record (Model/PrimsApi.v): isinstance(x, ast.Column) is a test of the class tag, '
     'attribute reads are record lookups, str.strip() is Model/Naming.strip (ASCII white space)',
+    'translator tie of the prelude of execute_select (C07_source_result_types, group prelude -> Gen/SrcPrelude.v, regenerated '
+    'by this check): trusted are the translator (py2mini + src_exec.WholeTranslator rules, src_prelude.py statement '
+    'selection), PyMini and Model/PrimsPrelude.v (query / targets as tagged records, c_expr an opaque callable with a dtype, '
+    'tuple / set / enumerate); beanquery.Column is an opaque constructor; the theorem assumes that no target name is the '
+    'empty string - the harness monitors that hypothesis on the implementation (empty_name_probe: statements that try to '
+    'alias a target by an empty quoted / back-quoted string must be rejected by the parser or deliver rows as wide as '
+    'the description)',
+    'translator tie of the wildcard expansion (bld-compiler3; C07_source_wildcard_*; Gen/SrcTargets.v regenerated from Compiler._compile_targets / _inop on every run): the statement in front of the target loop is selected by structure (first statement of the body); trusted: PyMini semantics, translator rules of harness/vf/src_compiler.py (K12 state threading for the loop body, not used by the tied statement), Model/PrimsSelect.v: ast.Target / ast.Column build tagged records, a table exposes wildcard_columns as an attribute holding a list of names (an explicit hypothesis); the loop over the targets and _inop are translated (a change is visible in Gen/SrcTargets.v) but not tied by proof',
 ]
 EXTRA_TARGETS = ['Proofs/RegistryTie.vo']
 WS = [' ', '  ', '\n', '\t', ' /* c */ ', '\n  ']
@@ -28,7 +36,36 @@ def generate():
     from . import gen_src
     out = dict(gen_registry.generate() or {})
     out.update(gen_src.generate('naming'))
+    out.update(gen_src.generate('prelude'))     # bld-misc: the prelude of execute_select (description / projection)
+    out.update(gen_src.generate('targets'))     # bld-compiler3: Compiler._compile_targets / _inop (wildcard expansion)
     return out
+
+
+EMPTY_NAME_PROBES = ["SELECT a AS '' FROM #t", 'SELECT a AS "" FROM #t', 'SELECT a AS `` FROM #t',
+                     "SELECT a AS '', b FROM #t", "SELECT b, a + 1 AS '' FROM #t ORDER BY a",
+                     "SELECT a AS '' FROM #t GROUP BY a", "SELECT * FROM (SELECT a AS '', b FROM #t)",
+                     "SELECT a AS ' ' FROM #t", "SELECT a AS 'x y' FROM #t"]
+
+
+def empty_name_probe(sqls=EMPTY_NAME_PROBES):
+    """The hypothesis of C07_source_result_types on the implementation: can a visible target be named by the empty
+    string?  Every probe must be rejected, or describe exactly as many columns as its rows are wide."""
+    conn = impl.connection({'t': impl.make_table('t', [('a', int), ('b', int)], [(1, 2), (3, 4)])})
+    out = {'rejected': 0, 'accepted': 0, 'accepted_with_empty_name': 0}
+    bad = []
+    for sql in sqls:
+        try:
+            cur = conn.execute(sql)
+            names = [d.name for d in cur.description]
+            widths = sorted({len(r) for r in cur.fetchall()})
+        except Exception:  # noqa: BLE001
+            out['rejected'] += 1
+            continue
+        out['accepted'] += 1
+        out['accepted_with_empty_name'] += any(not n for n in names)
+        if widths not in ([], [len(names)]):
+            bad.append((sql, names, widths))
+    return out, bad
 
 
 def spaced(rng, text):
@@ -521,6 +558,12 @@ def run(tier, rng):
                                          {'table': name, 'got': got, 'want': want}, signature='wildcard:' + name))
     rviol, rcov = cursor_reuse_stream(tier, rng)
     violations.extend(rviol)
+    ecov, ebad = empty_name_probe()
+    for sql, names, widths in ebad[:2]:
+        violations.append(core.Violation('naming', f'{sql!r}: row widths {widths} differ from the {len(names)} described columns '
+                                         f'{names} (a target named by the empty string is described but not projected)',
+                                         {'kind': 'empty-name', 'sql': sql, 'names': names, 'widths': widths},
+                                         signature='naming:empty-name:' + sql))
     cov = {
         'evaluations': len(cases) + nb + ns + rcov['cursor_reuse_sequences'], 'structured_and_placeholder_targets': ns, 'distinct_nontrivial': nontrivial,
         'rule': 'random SELECT lists of 1-4 targets (aliased / bare column / expression of depth<=3) written with random white space, '
@@ -531,6 +574,7 @@ def run(tier, rng):
         'traces_validated_against_impl': len(cases), 'histograms': hist, 'beancount_tables_checked': nb,
     }
     cov.update(rcov)
+    cov['empty_name_probe'] = ecov
     cov['rule'] += ('; cursor re-use: sequences of 2-7 statements on ONE cursor of a Beancount connection (statements refused after '
                     'their FROM clause was compiled - unknown column / function / ORDER BY index over every table, subqueries, FROM '
                     'expressions - and PRINT, wildcard statements with and without FROM, plain statements): description names and '
@@ -548,6 +592,8 @@ def replay(rec):
             return reuse_first_bad(rec['steps'], run_reuse_impl((f.name, [s['sql'] for s in rec['steps']])), fresh) is None
         finally:
             os.unlink(f.name)
+    if rec.get('kind') == 'empty-name':
+        return not empty_name_probe([rec['sql']])[1]
     if 'sql' not in rec:
         return not beancount_wildcards()[1]
     c = rec['case']
